@@ -130,7 +130,7 @@ pub fn op_kind(op: &Op) -> String {
             Damage::ArtDel(_) => "art-del", Damage::ArtSet(..) => "art-set", Damage::DirDel(_) => "dir-del",
             Damage::PdirDel => "pdir-del", Damage::Junk(_) => "junk", Damage::PjDel => "pj-del",
             Damage::PjGarbage(_) => "pj-garbage", Damage::PjStale(_) => "pj-stale", Damage::SjDel => "sj-del",
-            Damage::SjGarbage(_) => "sj-garbage", Damage::SjStale(_) => "sj-stale", Damage::SjFuture(_) => "sj-future", Damage::Nop => "nop",
+            Damage::SjGarbage(_) => "sj-garbage", Damage::SjStale(_) => "sj-stale", Damage::SjFuture(_) => "sj-future", Damage::SjMerge(_) => "sj-merge", Damage::Nop => "nop",
         }),
     }
 }
@@ -262,7 +262,7 @@ pub fn run_replay(text: &str, out: &mut dyn Write) -> CampaignStats {
         let ctx = Ctx {
             base: base.clone(), other_base: vec![], numbers: vec![], targets: vec![], patches: vec![], wrong_base_patches: vec![],
             key_mode: KeyMode::None, key: key.clone(), sigs: vec![], app_id: String::new(), yaml_channel: None, versions: vec![],
-            channels: vec![], auto: None, all_sigs: sigs.clone(), all_contents: vec![],
+            channels: vec![], auto: None, all_sigs: sigs.clone(), all_contents: vec![], merge_bias: 0,
         };
         let mut src = |_r: &Runner, k: usize| -> Option<Op> { ops.get(k).cloned() };
         run_history(id, &ctx, &mut src, out, stats);
